@@ -160,7 +160,7 @@ class C13(F.PropCheck):
           'CRASH': 9, 'FACTORY': 10, 'POST': 11, 'DUMP': 12}
     OUT = {0: 'FLASH', 1: 'CRASH', 2: 'R', 3: 'CFG', 4: 'STATE', 5: 'FLASHC', 6: 'FLASHS', 7: 'SUBMIT', 8: 'SAVERET', 9: 'FAULT',
            13: 'CFGU', 14: 'STATEU', 15: 'FLASHCU', 16: 'FLASHSU', 17: 'SUBMITU'}
-    quick_cases = 2500; thorough_cases = 60000
+    quick_cases = 2500; thorough_cases = 20000
     trusted_extra = ['C13 driver harness/drv/c13.c + harness/wrap/c13_cfgmode_wrap.c: real supla_esp_cfg.c, real supla_esp_recv_callback with the '
                      'supla_esp_cfg_save call routed through a printing spy; power loss = longjmp out of the flash hook before an erase/write',
                      'flash double: an erase/write either happens completely or not at all (failure code ERR/TIMEOUT: not at all); reads never fail',
